@@ -381,7 +381,10 @@ def verify_one(task):
         obs = list(ctx.obligations.values())
         unf = Unfolder(reg)
         lemmas, twin_lemmas = [], []
+        wanted = set(getattr(reg.contracts.get(q), "lemmas", ()))
         for build in getattr(reg, "lemmas", []):
+            if getattr(build, "opt_in", False) and build.__name__ not in wanted:
+                continue           # an expensive lemma (many instances): only for the functions that ask for it
             try:
                 lem = build(reg)
                 if lem is not None:
